@@ -1,5 +1,8 @@
 #![allow(dead_code, unused_imports, unused_variables)]
 mod backend;
+mod blind;
+mod corrupt;
+mod memtrack;
 mod engine;
 mod fault;
 mod engine_handles;
@@ -18,6 +21,9 @@ mod util;
 
 use runner::Tier;
 use std::path::PathBuf;
+
+#[global_allocator]
+static GLOBAL: memtrack::Counting = memtrack::Counting;
 
 fn usage() -> i32 {
     eprintln!("usage: cfbverif check <ID> <quick|thorough> | replay <ID> <file> | solo <ID> <file> | worker <ID> ... | list");
